@@ -250,6 +250,13 @@ def apply_op(world, op, args):
         target = args[0]
         call = op['call']
         vals = [dec(v) for v in call['vals']]
+        if call['mode'] in ('autopos', 'autokw'):
+            # as many values as the target has free symbols (read from the target itself)
+            names = sorted(str(x) for x in target.free_symbols)
+            vals = vals[:len(names)]
+            if call['mode'] == 'autokw':
+                return target(**dict(zip(names, vals)))
+            return target(*vals)
         if call['mode'] == 'kw':
             return target(**dict(zip(call['names'], vals)))
         return target(*vals)
